@@ -368,7 +368,7 @@ def monitor(case, d):
             if i is not None: add("combined-vs-separate(input)", "weightedDerivatives input derivative[%d] = %r, weightedInputDerivative gives %r" % (i, at(d["wdi"], i), at(d["wid"], i)))
         # ---- finite differences
         s0 = d["s0"][0]
-        osc = max([1.0] + [abs(x) for x in ref if x == x and not math.isinf(x)])
+        osc = max([1.0] + [abs(x) for x in ref if x == x and not math.isinf(x)] + d.get("osc", []))
         for kind, g, f, kk in (("parameter", d.get("wpd") if hp else None, d.get("fp"), d.get("kp")), ("input", d.get("wid") if hi else None, d.get("fi"), d.get("ki"))):
             if g is None or f is None or len(f) != 4 * len(g) or kk is None or len(kk) != 2 * len(g): continue
             sc = max([1.0, abs(s0)] + [abs(x) for x in g if x == x])
@@ -491,12 +491,23 @@ def main():
             if why: dis.append((c, why, mo, io))
         elif mo.startswith("MODELERR"):
             raise RuntimeError("model driver: %s on %s" % (mo, c.line()[:200]))
-    if dis and not nfail:
+    # A derivative disagreement on a NON-exact case may be a rounding-decided kink: a rectifier argument that is 0 in exact arithmetic
+    # (e.g. a weight row orthogonal to the previous layer) comes out as 0 or +-1e-17 depending on the summation order (BLAS vs. the model's
+    # left-to-right sums), and the two sides take different one-sided derivatives.  The model driver reports the kink margin km =
+    # min |rectifier argument| / (1 + sum |w_i x_i| + |b|); with km < 1e-10 on a non-dyadic case the point is non-differentiable up to
+    # rounding and only the values (np, rt, eb, e1) are compared.  Exact (dyadic Linear/Rectifier) cases are always compared in full.
+    real = [it for it in dis if not (it[1].split("[")[0] in ("wpd", "wid", "wdp", "wdi") and not it[0].an.exact
+                                     and parse_out(it[2]).get("km", [1.0])[0] < 1e-10)]
+    ck.notes["derivative_disagreements_at_rounding_decided_kinks"] = len(dis) - len(real); dis = real
+    # every disagreeing case is dumped; the first one is the replay of the correspondence violation (reported whether or not
+    # the monitor failed on other, unrelated cases: a disagreeing case is by construction one on which the monitor passed)
+    if dis: ck.write_replay("cor_cases_all.txt", "".join("# %s\n%s\n" % (w, c_.line()) for c_, w, _, _ in dis[:50]))
+    if dis:
         c, why, mo, io = dis[0]
-        cf = ck.write_replay("cor_case.txt", c.line() + "\n")
+        cf = ck.write_replay("cor_case.txt", "# correspondence: %s\n%s\n" % (why, c.line()))
         ck.violation("correspondence", {"case_file": cf, "case": c.line(), "differs": why, "model_output": mo[:3000], "implementation_output": io[:3000],
                                         "replay_cmd": "python3 tools/c04.py --replay %s" % cf, "broken": "correspondence C04Model vs %s" % c.an.name},
-                     "correspondence C04Model vs %s no longer checks (%s; %d cases differ); the spec monitor passes on every explored input" % (c.an.name, why, len(dis)), no_input=True)
+                     "correspondence C04Model vs %s no longer checks (%s; %d cases differ); the spec monitor passes on these inputs" % (c.an.name, why, len(dis)), no_input=True)
     ck.oblige("spec monitor (batch = single, parameter round trip, combined = separate, derivatives = finite differences) on %d cases of %d model classes" % (len(cases), len(per_class)),
               nfail == 0, "" if not nfail else "%d failures (%d distinct keys)" % (nfail, len([k for k in allkeys if ck.match_known(k) is None])))
     ck.oblige("correspondence C04Model (float instantiation) = LinearModel / ConcatenatedModel / Normalizer / Classifier on %d cases" % ncmp, not dis,
